@@ -71,4 +71,24 @@ PROPS = {
                 "non-trivial = operation with list-valued or nested fields; distinct = distinct contents",
         "assumptions": ["fields the property does not list (database properties on create-database, resource groups / load fields of load-partitions) are not compared"],
     },
+    "C01": {
+        "pkg": "hreader", "test": "TestC01", "level": "exploration",
+        "quick": T(16, 50, timeout=900), "thorough": T(16, 1500, timeout=7000),
+        "rule": "rapid-generated catalogs (1..3 pchannels per side, 1..3 collections x 1..2 shards on shared pchannels, default + named partition, default/named database, 40% skewed downstream placement, "
+                "3% late partition ids, 3% collections created downstream only by the create event), per-shard scripts of 1..7 packs (BeginTs=0 first packs, 0..3 messages of insert/delete/tick/create*/unsupported, "
+                "equal-timestamp groups, clock skew 0..120 s, message positions nil/pchannel/vchannel) and a drawn interleaving of StartReadCollection/AddPartition/feed actions against the real replicateChannelManager; "
+                "after quiescence (goroutine-dump based) a two-sided oracle: no invention, no duplicate, completeness, source-time order (deletes first on ties), payload proto.Equal modulo the rewritable fields, per-stream pack order "
+                "and attribution (collection, source channel, task). non-trivial = >= 2 streams share a downstream channel with >= 2 data packs, or a registration interleaved after the first feed; distinct = distinct catalog+scripts",
+        "assumptions": ["go-deadlock detector disabled in the harness (pinned goid returns a constant under Go 1.23: toolchain artefact)",
+                        "streams that never get a handler (waiting for a free downstream channel) are not fed",
+                        "known finding F-C01-forward-overtake: for streams recognised as forwarded the relative order of tick-only vs data packs is not compared (counted)"],
+    },
+    "C02": {
+        "pkg": "hreader", "test": "TestC02", "level": "exploration",
+        "quick": T(16, 50, timeout=900), "thorough": T(16, 1500, timeout=7000),
+        "rule": "same generator as C01; oracle per emitted insert/delete/drop message: downstream collection id of the same-named collection, downstream partition id of the same-named partition, shard name among the collection's "
+                "downstream vchannels with a bijective source->downstream shard relation, delivered on the output stream of the pchannel hosting that vchannel, pack positions name that pchannel, message positions name it or its vchannel and keep the source message id. "
+                "non-trivial = skewed placement, shared downstream channel, or late partition id; distinct = distinct catalog+scripts",
+        "assumptions": ["go-deadlock detector disabled in the harness (toolchain artefact)", "cases in which no handler can own the target channel end in a ReplicateError event and are accepted"],
+    },
 }
